@@ -440,6 +440,9 @@ fn caller_thread(env: Env, hash_key: u64, jobs: Receiver<Job>, replies: Sender<R
     let _guard = seam::enter(&env, hash_key);
     while let Ok(job) = jobs.recv() {
         let mut reply = Reply { obs: vec![], compiled: vec![] };
+        // the process-wide `environ` block is the simulated one while this operation runs
+        // (restored before the reply is sent: the next operation may run on another thread)
+        let environ_guard = if matches!(job, Job::Stop) { None } else { Some(seam::swap_environ(&env)) };
         match job {
             Job::Stop => break,
             Job::CompileQuiet { subj, slot, text } => {
@@ -612,6 +615,7 @@ fn caller_thread(env: Env, hash_key: u64, jobs: Receiver<Job>, replies: Sender<R
                 reply.obs.push(Obs::Nothing);
             }
         }
+        drop(environ_guard);
         if replies.send(reply).is_err() {
             break;
         }
